@@ -45,8 +45,16 @@ def cons? : String → Option (AnyV CT)
   | "tm" => some (.val .tm) | "bsc" => some (.val .bsc) | "eth" => some (.val .eth) | "tss" => some (.val .tss)
   | _ => none
 
+/-- consensus token of a proposal: as `cons?`, or `tm:<rootEmpty>:<hashOk>:<tsPositive>`. -/
+def consP? (t : String) : Option (AnyV CT × TmCons) :=
+  match t.splitOn ":" with
+  | ["tm", r, h, ts] => do pure (.val .tm, { rootEmpty := ← b? r, hashOk := ← b? h, tsPositive := ← b? ts })
+  | [x] => (cons? x).map (fun a => (a, {}))
+  | _ => none
+
 def clientProp? (absOk chain cs cons : String) : Option ClientProp := do
-  pure { absOk := ← b? absOk, chain := ← str? chain, cs := ← cs? cs, cons := ← cons? cons }
+  let (ct, tmc) ← consP? cons
+  pure { absOk := ← b? absOk, chain := ← str? chain, cs := ← cs? cs, cons := ct, tmc := tmc }
 
 /-- commit only what gov would: validated and executed without error. -/
 def resX (st : St) (v : Out Unit) (h : Out XSt) : St × String :=
